@@ -487,17 +487,20 @@ CHECK = {
     "assumptions": ["theorems are over the reals; rounding is observed, not proved",
                     "'satisfy the normal equations' is read columnwise: |J^T(Jx-Y)|_j <= max(1e-9|1e-4, 100 eps cond) |J_j| (|Jx|+|Y|nat), |Y|nat = |sum_c |n_c|(|t_c|+|s_c|)|_2 (Y is a difference of coordinates), cond = "
                     "condition number of the normal matrix as the code solves it; calls with 1000 eps cond > 0.05 are counted, not judged",
-                    "O(theta^2) is checked in the explicit form |J(x - x_true)| <= theta^2/2 sqrt(sum |s_i|^2) on exact-motion data (oracle only, not a theorem)",
+                    "O(theta^2): the explicit form |J(x - x_true)| <= theta^2/2 sqrt(sum |s_i|^2) on exact-motion data is a theorem over the reals (C05_p2p_rotation_second_order_*); the oracle measures the same inequality on the float outputs with 1% + rounding slack (the slack is not proved)",
                     "failures on problems whose normal matrix has a singular value below epsilon are attributed to C07's finding (same key)"],
     "run_timeout": 900,
     "manifest": {
         "text": "Coq theorems about a model of the row/residual construction, the scatter into the homogeneous matrix and the "
                 "preconditioner, on top of the LeastSquares model: residual identity row.x - y = n.((I+[w]x)s + tau - t), the returned "
                 "parameters satisfy the normal equations of the linearised problem and minimise its cost, pure translations are "
-                "recovered exactly when the design matrix has full rank, preconditioning invariance; O(theta^2) is oracle-only. Tied by "
+                "recovered exactly when the design matrix has full rank, preconditioning invariance; the O(theta^2) rotation error is proved: "
+                "(1-cos t)^2+(t-sin t)^2 <= t^4/4 for all real t, linearisation remainder |(I+tK-R)s|^2 <= t^4/4 |s|^2 in 2D and 3D "
+                "(Rodrigues), hence for exact-motion data with unit normals every solution z of the normal equations (in particular the "
+                "estimate of p2p_estimate) satisfies |J(z-x_true)|^2 <= theta^4/4 sum|s_i|^2, and |z-x_true|^2 <= that / lambda_min. Tied by "
                 "running the extracted model against the real class (eight point types, sequences of calls on one object).",
         "note": "Trusted: Coq kernel, real-number axioms, hand-written models (tied only by differential execution), extraction, float "
-                "dictionaries, harness, oracle. Eigen's SVD is a hypothesis. The second-order rotation error is measured, not proved.",
-        "technique": "Coq proof (ring identities + C07's least-squares theorems) + extracted-model correspondence run + exact-rational oracle",
+                "dictionaries, harness, oracle. Eigen's SVD is a hypothesis. The second-order rotation bound is over the reals on exact-motion data; with noise or rounding it is measured only.",
+        "technique": "Coq proof (ring identities + C07's least-squares theorems + mean-value-theorem bounds on the rotation remainder) + extracted-model correspondence run + exact-rational oracle",
     },
 }
